@@ -10,7 +10,9 @@
                                   by the translated helper only when an operand of the division is out of range); the rational is the
                                   exact value of the expression (division, integral form or decimal floating constant)
      b2b <n> / fit <w>         -> ok <n> | ok none
-     tableok                   -> ok <0|1> *)
+     tableok                   -> ok <0|1>      (table_ok && emit_ok)
+     sto <c|cpp> <b|u|s|f|v> <w> <s|t>  -> ok <declared storage type|none> sat=<1|0|none>
+     port <c|cpp|py> <n|none>  -> ok <n|none|?>   the fixed port id the target exports (emit condition of the template scan) *)
 open Model
 
 exception Bad of string
@@ -119,7 +121,25 @@ let handle (line : string) : string =
        | None -> Printf.sprintf "ok %s unparsable div=%s" e_s (if div then "1" else "0"))
     | "b2b" -> if not (is_dec toks.(1)) then raise (Bad "invalid_arg"); "ok " ^ show_oz (filter_bits2bytes_ceil (z_of_string toks.(1)))
     | "fit" -> if not (is_dec toks.(1)) then raise (Bad "invalid_arg"); "ok " ^ show_oz (get_best_fit (z_of_string toks.(1)))
-    | "tableok" -> if table_ok then "ok 1" else "ok 0"
+    | "tableok" -> if table_ok && emit_ok then "ok 1" else "ok 0"
+    | "sto" ->
+      (* sto <c|cpp> <b|u|s|f|v> <w> <s|t>  -> ok <declared type>|none  ok-sat <1|0|none> *)
+      let k = (match toks.(2) with "b" -> KBool | "u" -> KUInt | "s" -> KSInt | "f" -> KFloat | "v" -> KVoid | _ -> raise (Bad "invalid_arg")) in
+      if not (is_dec toks.(3)) then raise (Bad "invalid_arg");
+      let cm = (match toks.(4) with "s" -> CM_SATURATED | "t" -> CM_TRUNCATED | _ -> raise (Bad "invalid_arg")) in
+      let t = { pty_kind = k; pty_bit_length = z_of_string toks.(3); pty_cast_mode = cm } in
+      let r = (match toks.(1) with "c" -> c_filter_type_from_primitive c_lang t | "cpp" -> cpp_filter_type_from_primitive cpp_lang t
+                                 | _ -> raise (Bad "invalid_arg")) in
+      Printf.sprintf "ok %s sat=%s" (match r with Some s -> string_of_str s | None -> "none")
+        (match is_saturated t with Some true -> "1" | Some false -> "0" | None -> "none")
+    | "port" ->
+      (* port <c|cpp|py> <n|none> -> ok <n|none>   (what the target exports for a type whose DSDL fixed port id is n / absent) *)
+      let tg = (match toks.(1) with "c" -> TgtC | "cpp" -> TgtCpp | "py" -> TgtPy | _ -> raise (Bad "invalid_arg")) in
+      let p = if toks.(2) = "none" then None else (if not (is_dec toks.(2)) then raise (Bad "invalid_arg"); Some (z_of_string toks.(2))) in
+      (match exported_port tg p with
+       | Some (Some z) -> "ok " ^ string_of_z z
+       | Some None -> "ok none"
+       | None -> "ok ?")
     | _ -> "err invalid_arg"
   with
   | Bad s -> "err " ^ s
